@@ -70,6 +70,10 @@ fn main() {
                 e3cfg::run(seed, shard, a.u64("cases", if thorough { 400 } else { 60 }), only, &mut rep);
             }
         }
+        "e3s" => {
+            let only = replay.as_ref().and_then(|r| r.get("case")).and_then(|c| c.as_u64());
+            e3s::run(seed, shard, nshards, a.u64("cases", if thorough { 20 } else { 2 }), a.u64("rounds", 6) as usize, a.u64("threads", 6) as usize, only, &mut rep);
+        }
         "e1c" => {
             let only = replay.as_ref().map(|r| {
                 let f = &r["fault"];
